@@ -26,7 +26,25 @@ OTHER = {"type": "record", "name": "Different", "fields": [{"name": "zzz", "type
 
 FLT = {"type": "record", "name": "Flt", "fields": [{"name": "a", "type": "long"}, {"name": "s", "type": "string"}, {"name": "f", "type": "float"}, {"name": "m", "type": {"type": "map", "values": "int"}}]}
 
+# nested named types, by-name references, a null-namespace type inside a namespace, a recursive type: appending re-parses the
+# schema found in the header, so the header must carry all of it
+NEST = {"type": "record", "name": "app.Outer", "fields": [
+    {"name": "k", "type": {"type": "enum", "name": "Kind", "symbols": ["A", "B"]}},
+    {"name": "inner", "type": {"type": "record", "name": "Inner", "namespace": "", "fields": [
+        {"name": "f", "type": {"type": "fixed", "name": "other.F2", "size": 2}}, {"name": "again", "type": ["null", "app.Kind"]}]}},
+    {"name": "more", "type": {"type": "array", "items": "other.F2"}},
+    {"name": "next", "type": ["null", "Outer"], "default": None}]}
+
 FAMILIES = {
+    "nest": dict(
+        schema=NEST,
+        good=[{"k": "A", "inner": {"f": b"ab", "again": None}, "more": []}, {"k": "B", "inner": {"f": b"\x00\xff", "again": "A"}, "more": [b"zz", b"yy"],
+                                                                           "next": {"k": "A", "inner": {"f": b"cd", "again": "B"}, "more": [b"11"], "next": None}}],
+        bad=[{"k": "C", "inner": {"f": b"ab", "again": None}, "more": []},  # unknown symbol, first field
+             {"k": "A", "inner": {"f": b"abc", "again": None}, "more": []},  # wrong fixed size after k was encoded
+             {"k": "A", "inner": {"f": b"ab", "again": None}, "more": [b"ok", b"toolong"]},  # inside the array
+             {"k": "B", "inner": {"f": b"ab", "again": "A"}, "more": [], "next": {"k": "A", "inner": {"f": b"ab"}, "more": 5}}],  # deep inside the recursion
+    ),
     "flt": dict(
         schema=FLT,
         good=[{"a": 1, "s": "x", "f": 1.5, "m": {}}, {"a": -2, "s": "yy" * 40, "f": -0.0, "m": {"k": 1}}],
@@ -71,7 +89,7 @@ class C07(Check):
         "a successful one, write_block with pending records, append after an empty flush, or >=2 reopenings."
     )
     assumptions = ["a reopen is preceded by a flush (records never flushed before the writer is dropped are not 'submitted so far' at any flush)"]
-    required_labels = ["failed-then-success", "write_block-with-pending", "reopens>=2", "append-after-empty-flush", "family:empty", "family:rec", "family:flt", "stream:file", "validator:on", "validator:off", "auto-dump", "metadata-dict-reused", "block:iterated", "block:twice"]
+    required_labels = ["failed-then-success", "write_block-with-pending", "reopens>=2", "append-after-empty-flush", "family:empty", "family:rec", "family:flt", "family:nest", "stream:file", "validator:on", "validator:off", "auto-dump", "metadata-dict-reused", "block:iterated", "block:twice"]
     quick = (1200, 1)
     thorough = (1500, 16)
 
@@ -87,7 +105,7 @@ class C07(Check):
         @st.composite
         def histories(draw):
             d = gen.D(draw)
-            famname = d.choice(["rec", "flt", "empty", "union", "arr", "map", "rec"])
+            famname = d.choice(["rec", "flt", "empty", "union", "arr", "map", "nest", "nest", "rec"])
             fam = FAMILIES[famname]
             init = {
                 "family": famname,
